@@ -1,6 +1,7 @@
 import SV.Model.C01
 import SV.Model.C02
 import SV.Model.C11
+import SV.Model.C09
 import SV.Model.C12
 import SV.Model.C15
 import SV.Model.C18
@@ -19,6 +20,7 @@ def dispatch (prop : String) : Option (String → String) :=
   | "C01" => some C01.Driver.handle
   | "C02" => some C02.Driver.handle
   | "C11" => some C11.Driver.handle
+  | "C09" => some C09.Driver.handle
   | "C12" => some C12.Driver.handle
   | "C15" => some C15.Driver.handle
   | "C18" => some C18.Driver.handle
